@@ -1,3 +1,5 @@
+#[cfg(flounder_verif)]
+use crate::verif_seam::std_shim as std;
 use crate::moves::Move;
 use std::time::{Duration, Instant};
 
@@ -24,6 +26,8 @@ impl SearchTimer {
     /// # Arguments
     /// * `time_limit` - Optional max duration for the search
     pub fn start(&mut self, time_limit: Option<Duration>) {
+        #[cfg(flounder_verif)]
+        crate::verif_seam::on_timer_start(time_limit);
         self.start_time = Some(Instant::now());
         self.time_limit = time_limit;
         self.nodes_searched = 0;
